@@ -607,6 +607,123 @@ Theorem C03_player_run_from_source :
      StepperProofs.verdict_rel (snd (run sorted ss)) (snd (StepperProofs.m_run unsorted (S (total_events ss)) st))).
 Proof. exact (conj StepperProofs.m_run_init StepperProofs.run_from_source). Qed.
 Print Assumptions C03_player_run_from_source.
+
+(* The emulator's main loop (unit emuloop: emu.c emu_step and `while ((ret = emu_step(&emu)) == 0)`, Gen/EmuLoop_gen.v)
+   composed with the player from the source.  emu_trace = the events player_step delivered to the iterations of the
+   generated loop.  On a run emu.c completes (hypotheses of C13_emu_run_from_source: every delivered stream has a thread,
+   model bytes index the slots, the handlers and the recorder accept: pv_run_from = Ok), started from the player state
+   player_init leaves for the streams ss (InitRel) while the byte-level state st0 satisfies InitOk for the same ss:
+   the loop sees exactly the events of PlayerDefs.run, and their clocks are, one for one, the (sclock, wrap-around dclock)
+   the GENERATED player_init + player_step hand to emu_ev (m_run, C03_player_run_from_source).
+   _partial - what is missing for the unconditional "the generated loop runs the generated player_step":
+     * in EmuLoopPre.v player_step / player_init are PRIMITIVES on the model player state (PlayerDefs.pstep; player_init
+       only logs); the two preludes' states are related by EmuPlayerProofs.PlayerRel (= StepperProofs.Sim between
+       StepperPre.pstate and es_player) and InitRel; replacing the primitive by the translated function needs unit emuloop
+       re-instantiated over a prelude whose player is StepperPre.pstate (not done: emuloop.py is not mine to edit);
+     * sorted mode only (ovniemu); the identity of a delivered event beyond its clocks is carried by the model side only
+       (en_content), the generated player hands emu_ev a pointer whose decoding is EmuEvDefs' business. *)
+From OV Require Proofs.EmuPlayerProofs.
+Theorem C03_emu_loop_delivers_player_run_from_source_partial : forall sx est st0 ss cst,
+  EmuPlayerProofs.InitRel sx est ss -> StepperProofs.InitOk (map s_off ss) st0 (map s_evs ss) ->
+  snd (run true ss) = VOk ->
+  (forall e, In e (fst (run true ss)) ->
+     EmuLoopPre.en_lpt sx (o_id e) <> None /\ 0 <= EmuLoopRelDefs.model_of sx e < 256) ->
+  EmuLoopRelDefs.models_wf sx est -> EmuLoopPre.es_models est = EmuLoopPre.MSem cst None ->
+  (exists y, PvDefs.pv_run_from (EmuLoopPre.en_sx sx) cst (EmuLoopPre.es_rec est) 0
+               (EmuLoopProofs.evs_of sx (EmuLoopPre.es_enabled est) (fst (run true ss))) = EmuCoreDefs.Ok y) ->
+  let fuel := S (total_events ss) in
+  EmuPlayerProofs.emu_trace fuel sx est = fst (run true ss) /\
+  map StepperProofs.model_clocks (EmuPlayerProofs.emu_trace fuel sx est) =
+  map StepperProofs.clocks_of (fst (StepperProofs.m_run 0 fuel st0)).
+Proof. exact EmuPlayerProofs.emu_loop_delivers_player_run. Qed.
+Print Assumptions C03_emu_loop_delivers_player_run_from_source_partial.
+
+(* the loop alone, from any pair of related states *)
+Theorem C03_emu_loop_delivers_player_loop_from_source_partial : forall fuel sx est st cst oevs,
+  EmuPlayerProofs.PlayerRel sx est st ->
+  ploop true (EmuLoopPre.en_offs sx) fuel (EmuLoopPre.es_player est) = (oevs, VOk) ->
+  (forall e, In e oevs -> EmuLoopPre.en_lpt sx (o_id e) <> None /\ 0 <= EmuLoopRelDefs.model_of sx e < 256) ->
+  EmuLoopRelDefs.models_wf sx est -> EmuLoopPre.es_models est = EmuLoopPre.MSem cst None ->
+  (exists y, PvDefs.pv_run_from (EmuLoopPre.en_sx sx) cst (EmuLoopPre.es_rec est) 0
+               (EmuLoopProofs.evs_of sx (EmuLoopPre.es_enabled est) oevs) = EmuCoreDefs.Ok y) ->
+  map StepperProofs.model_clocks (EmuPlayerProofs.emu_trace fuel sx est) =
+  map StepperProofs.clocks_of (fst (StepperProofs.m_loop fuel st)).
+Proof. exact EmuPlayerProofs.emu_loop_delivers_player_loop. Qed.
+Print Assumptions C03_emu_loop_delivers_player_loop_from_source_partial.
+(* ---- trace.c:trace_load from the source (unit traceload: coq/Gen/TraceLoad_gen.v over Emu/TraceLoadPre.v) ----
+   is_stream, cb_nftw and trace_load are syntax trees of src/emu/trace.c.  The generated trace_load equals the closed
+   form TraceLoadProofs.trace_load_spec: the path is refused at PATH_MAX bytes, trailing slashes go, opendir/closedir
+   must succeed, then every regular file called "stream.json" that nftw visits is handed to load_stream in the order of
+   the walk (anything else is skipped, the first failing load_stream fails the whole load), cur_trace is reset and the
+   list is sorted: the trace ends with sort_streams of what the walk loaded - also written as the insertion by the
+   GENERATED comparator trace.c:cmp_streams (unit cmp_player) - and nstreams is its length.
+   PRIMITIVES (hand-written in TraceLoadPre.v, not read from the source): the C library (memset, snprintf "%s", strcmp
+   with a literal, opendir, closedir, nftw = "call the callback on x_walk's entries in order, stop at the first nonzero");
+   path.c:path_remove_trailing/path_filename/path_dirname as list functions; trace.c:load_stream's path arithmetic
+   (relpath_of) with stream.c:stream_load as the environment x_stream; DL_APPEND; DL_SORT as PlayerDefs.sort_streams. *)
+From OV Require Emu.TraceLoadPre Gen.TraceLoad_gen Proofs.TraceLoadProofs.
+Theorem C03_trace_load_from_source : forall sx st0 dir0,
+  TraceLoad_gen.trace_load (Some tt) dir0 sx st0 =
+  match TraceLoadProofs.trace_load_spec sx dir0 with
+  | Some st' => TraceLoadPre.Ok tt st'
+  | None => TraceLoadPre.Err TraceLoadPre.E_FAIL
+  end.
+Proof. exact TraceLoadProofs.trace_load_from_source. Qed.
+Print Assumptions C03_trace_load_from_source.
+
+Theorem C03_trace_order_from_source : forall sx st0 dir0 st1,
+  TraceLoad_gen.trace_load (Some tt) dir0 sx st0 = TraceLoadPre.Ok tt st1 ->
+  exists l en,
+    TraceLoadPre.t_dir st1 = TraceLoadPre.path_remove_trailing_v dir0 /\
+    TraceLoadPre.x_walk sx (TraceLoadPre.t_dir st1) = Some l /\
+    TraceLoadProofs.enum_of sx (TraceLoadPre.t_dir st1) l = Some en /\
+    TraceLoadPre.t_streams st1 = sort_streams en /\
+    TraceLoadPre.t_streams st1 = fold_right CmpPlayerProofs.ins_stream_src [] en /\
+    TraceLoadPre.t_n st1 = Z.of_nat (length en) /\ TraceLoadPre.t_cur st1 = None.
+Proof. exact TraceLoadProofs.trace_order_from_source. Qed.
+Print Assumptions C03_trace_order_from_source.
+
+(* two file systems that differ only in the order nftw walks them load as the same trace (same stream list for the
+   player); distinct stream directories have distinct relative paths: the NoDup *)
+Theorem C03_trace_load_walk_order_independent_from_source : forall sx sx' dir0 st0 st0' st1,
+  TraceLoadProofs.same_but_walk_order sx sx' ->
+  TraceLoad_gen.trace_load (Some tt) dir0 sx st0 = TraceLoadPre.Ok tt st1 ->
+  NoDup (map fst (TraceLoadPre.t_streams st1)) ->
+  TraceLoad_gen.trace_load (Some tt) dir0 sx' st0' = TraceLoadPre.Ok tt st1.
+Proof. exact TraceLoadProofs.trace_load_walk_order_independent. Qed.
+Print Assumptions C03_trace_load_walk_order_independent_from_source.
+(* ---- stream.c:stream_load from the source (unit traceload, second output: coq/Gen/StreamPath_gen.v over
+   Emu/StreamPathPre.v) ----
+   The generated stream_load equals the closed form StreamPathProofs.stream_load_spec.  On success stream->relpath - the
+   key trace.c:cmp_streams sorts by - is the relpath argument, path is <tracedir>/<relpath> without trailing slashes,
+   stream.json and stream.obs are looked for under it, and both loaded; every snprintf that does not fit PATH_MAX fails
+   the load; stream.json is loaded first (a failing load_json leaves stream.obs untouched).
+   PRIMITIVES: memset, the two snprintf shapes, path.c:path_remove_trailing/path_append, load_json (environment y_json),
+   stream.c:load_obs (environment y_obs; generated by unit stepper: C12_stream_load_from_source).
+   NOT composed with trace_load above: trace.c:load_stream (calloc, a local char[PATH_MAX], pointer arithmetic and a
+   while loop over it) is not translated, so TraceLoadPre.x_stream stands for "stream_load(tracedir, relpath) succeeds
+   and reads this stream" - the composition is left to the reader of the two closed forms. *)
+From OV Require Emu.StreamPathPre Gen.StreamPath_gen Proofs.StreamPathProofs.
+Theorem C03_stream_load_paths_from_source : forall sx st0 d rel,
+  StreamPath_gen.stream_load (Some tt) d rel sx st0 =
+  match StreamPathProofs.stream_load_spec sx d rel with
+  | Some st' => StreamPathPre.Ok tt st'
+  | None => StreamPathPre.Err StreamPathPre.E_FAIL
+  end.
+Proof. exact StreamPathProofs.stream_load_from_source. Qed.
+Print Assumptions C03_stream_load_paths_from_source.
+
+Theorem C03_stream_load_sort_key_from_source : forall sx st0 d rel st1,
+  StreamPath_gen.stream_load (Some tt) d rel sx st0 = StreamPathPre.Ok tt st1 ->
+  StreamPathPre.l_relpath st1 = rel /\
+  StreamPathPre.l_path st1 = StreamPathPre.path_remove_trailing_v (StreamPathPre.join d rel) /\
+  StreamPathPre.l_jsonpath st1 = StreamPathPre.join (StreamPathPre.l_path st1) StreamPathProofs.stream_json /\
+  StreamPathPre.y_json sx (StreamPathPre.l_jsonpath st1) = true /\
+  StreamPathPre.l_obspath st1 = StreamPathPre.join (StreamPathPre.l_path st1) StreamPathProofs.stream_obs /\
+  StreamPathPre.y_obs sx (StreamPathPre.l_obspath st1) = true /\
+  StreamPathPre.l_meta st1 = Some tt /\ StreamPathPre.l_obs st1 = true.
+Proof. exact StreamPathProofs.stream_load_paths. Qed.
+Print Assumptions C03_stream_load_sort_key_from_source.
 (* ==== end of block (unit stepper) ==== *)
 
 (* ==== whole-emulator composition (EmuAllDefs) ==== *)
